@@ -828,6 +828,48 @@ func bytesCalls(pkRel, recv, fn string) []string {
 }
 
 func extractMisc() {
+	// pipe id allocator: statement shape of Get's scan loop
+	{
+		p := loadPkg("internal/core")
+		shape := []string{}
+		if fd := p.fn("pipeIDAllocator", "Get"); fd != nil {
+			ast.Inspect(fd, func(x ast.Node) bool {
+				fs, ok := x.(*ast.ForStmt)
+				if !ok {
+					return true
+				}
+				for _, st := range fs.Body.List {
+					switch s := st.(type) {
+					case *ast.AssignStmt:
+						shape = append(shape, exprString(s.Lhs[0])+s.Tok.String()+exprString(s.Rhs[0]))
+					case *ast.IncDecStmt:
+						shape = append(shape, exprString(s.X)+s.Tok.String())
+					case *ast.IfStmt:
+						c := exprString(s.Cond)
+						if s.Init != nil {
+							if as, ok := s.Init.(*ast.AssignStmt); ok {
+								c = exprString(as.Rhs[0]) + ";" + c
+							}
+						}
+						act := "?"
+						if len(s.Body.List) == 1 {
+							if b, ok := s.Body.List[0].(*ast.BranchStmt); ok {
+								act = b.Tok.String()
+							}
+						}
+						shape = append(shape, "if "+c+" "+act)
+					case *ast.ReturnStmt:
+						shape = append(shape, "return "+exprString(s.Results[0]))
+					}
+				}
+				return false
+			})
+		} else {
+			unrec("internal/core:pipeIDAllocator.Get", "function not found")
+		}
+		emit("/-- internal/core pipeIDAllocator.Get: the scan loop -/\n")
+		emit("def allocShape : List String := %s\n", leanStrList(shape))
+	}
 	emit("/-- byte comparisons in protocol/sub: matching is HasPrefix(body, subscription); (un)subscribe compare with Equal -/\n")
 	emit("def subMatches : List String := %s\n", leanStrList(bytesCalls("protocol/sub", "context", "matches")))
 	emit("def subSubscribe : List String := %s\n", leanStrList(bytesCalls("protocol/sub", "context", "subscribe")))
